@@ -184,10 +184,15 @@ def end_to_end(ctx):
     try:
         with App(conf, folder=folder) as app:
             scenarios.build_store(app, 0)
+            # reserved names that really exist in a collection folder (editor backup, hidden draft): never served
+            caldir = os.path.join(folder, "collection-root", "u", "cal")
+            for planted in ("event1.ics~", ".draft.ics"):
+                with open(os.path.join(caldir, planted), "w") as pf:
+                    pf.write(scenarios.ev("planted-" + planted.strip(".~"), MARKER))
             methods = ["GET", "PUT", "DELETE", "PROPFIND", "MKCOL", "MKCALENDAR", "MOVE", "REPORT", "PROPPATCH", "HEAD", "OPTIONS", "POST"]
             for i in range(n):
                 method = methods[i % len(methods)]
-                channel = rng.choice(["path", "path", "dest", "href", "token", "script", "login", "reserved", "web"])
+                channel = rng.choice(["path", "path", "dest", "href", "href-reserved", "token", "script", "login", "reserved", "web"])
                 path = "/u/cal/a.ics"
                 env = {}
                 body = None
@@ -210,6 +215,13 @@ def end_to_end(ctx):
                     body = ('<?xml version="1.0"?><C:calendar-multiget xmlns:D="DAV:" xmlns:C="urn:ietf:params:xml:ns:caldav">'
                             '<D:prop><D:getetag/><C:calendar-data/></D:prop>%s</C:calendar-multiget>' %
                             "".join("<D:href>%s</D:href>" % xml_escape("".join(c for c in gen_path(rng) if ord(c) >= 32)) for _ in range(3)))
+                elif channel == "href-reserved":
+                    method = "REPORT"
+                    path = "/u/cal/"
+                    names = rng.sample(["event1.ics~", ".draft.ics", ".Radicale.props", ".Radicale.cache", ".Radicale.lock", "a.ics"], 3)
+                    body = ('<?xml version="1.0"?><C:calendar-multiget xmlns:D="DAV:" xmlns:C="urn:ietf:params:xml:ns:caldav">'
+                            '<D:prop><D:getetag/><C:calendar-data/></D:prop>%s</C:calendar-multiget>' %
+                            "".join("<D:href>/u/cal/%s</D:href>" % xml_escape(nm) for nm in names))
                 elif channel == "token":
                     method = "REPORT"
                     path = "/u/cal/"
@@ -232,6 +244,12 @@ def end_to_end(ctx):
                     body = scenarios.PROPPATCH
                 if not all(ord(c) < 0x110000 and not (0xD800 <= ord(c) < 0xE000) for c in path):
                     continue
+                if os.path.isdir(caldir):
+                    for planted in ("event1.ics~", ".draft.ics"):
+                        pp = os.path.join(caldir, planted)
+                        if not os.path.exists(pp):
+                            with open(pp, "w") as pf:
+                                pf.write(scenarios.ev("planted-" + planted.strip(".~"), MARKER))
                 before = disk_snapshot(folder)
                 hook_before = _hook_lines(folder)
                 rec.start()
@@ -257,11 +275,24 @@ def end_to_end(ctx):
                             ctx.violation("the server touched %r (%s) outside the storage folder" % (p, e["op"]), case)
                         if e["op"] == "execve" and not p.endswith("/sh"):
                             ctx.violation("the hook shell executed %r" % p, case)
+                # oracle 1b: reserved names inside a collection are never opened as items nor looked up in the item cache
+                for e in ent:
+                    if e["op"] in ("open", "openw", "stat"):
+                        rp = os.path.normpath(e["path"])
+                        base_ = os.path.basename(rp)
+                        parent_ = os.path.basename(os.path.dirname(rp))
+                        internal = base_ in (".Radicale.props", ".Radicale.lock", ".Radicale.cache") or base_.startswith(".Radicale.tmp-") or base_.startswith(".Radicale.lock")
+                        looks_reserved = base_.startswith(".") or base_.endswith("~")
+                        if rp.startswith(folder + "/collection-root/") and looks_reserved and (
+                                (not internal and e["op"] != "stat") or
+                                (parent_ in ("item", "history") and os.path.basename(os.path.dirname(os.path.dirname(rp))) == ".Radicale.cache"
+                                 and base_.startswith(".") and not base_.startswith(".Radicale.tmp-"))):
+                            ctx.violation("a reserved name was accessed as an item: %s %s" % (e["op"], rp[len(folder):]), case)
                 # oracle 2: decoy content never served
                 if MARKER in text:
                     ctx.violation("content of a file outside the storage was served", case)
                 # oracle 3: reserved names never created / deleted / served as items or collections
-                changed = {k for k in set(before) | set(after) if before.get(k) != after.get(k)}
+                changed = {k for k in set(before) | set(after) if before.get(k) != after.get(k)} - {"."}
                 # the automatic creation of the authenticated user's home collection is not the request's doing
                 home = login.split(":")[0]
                 if before.get(home) is None and after.get(home) == "dir":
@@ -269,6 +300,8 @@ def end_to_end(ctx):
                 for k in changed:
                     comps = k.split("/")
                     bad = [c for c in comps if c not in (".",) and (c.startswith(".") and c != ".Radicale.props" or c.endswith("~"))]
+                    if bad and after.get(k) is None:
+                        continue        # gone together with the collection that was deleted or replaced
                     if bad or os.path.basename(k) == "pwned":
                         ctx.violation("a reserved name was created, changed or deleted in the collection tree: %s" % k, case)
                 target = [c for c in path.split("/") if c]
@@ -278,7 +311,7 @@ def end_to_end(ctx):
                         and not (sane[:1] == [".web"] or sane[:1] == [".well-known"]):
                     if 200 <= st < 300 and method not in ("OPTIONS",):
                         ctx.violation("request on a reserved name answered %d" % st, case)
-                    if changed:
+                    if {k for k in changed if after.get(k) is not None or not k.endswith(("~", ".draft.ics"))}:
                         ctx.violation("request on a reserved name changed the store", dict(case, changed=sorted(changed)[:5]))
                 if os.path.exists(os.path.join(folder, "pwned")) or os.path.exists("pwned") or os.path.exists(os.path.join(base, "pwned")):
                     ctx.violation("client text was interpreted by the hook shell (file 'pwned' created)", case)
